@@ -1658,6 +1658,10 @@ def run(rep: vlib.Reporter, tier: str, seed: int) -> None:
         "Feature objects nested in option values (in_features) and option values that cannot be deep-copied are outside "
         "Model/Args.v: Options.__deepcopy__ is covered by direct observation only (part C: deep snapshot of the nested objects "
         "before/after every call, re-used vs fresh equal objects)",
+        "hand-written Model/ArgsLinks.v (Link objects as heap cells with class references, Engine's set of addresses, resolution of "
+        "every visited pair by LinkSel.find_matching, write-back parameter): the pairs a request visits (parents of each child of the "
+        "graph) are an input of the model, taken from a spy around ResolveLinks._find_matching_links; Link.uuid and the self-join "
+        "aliases are in the structural snapshot only; join execution / result rows are compared end to end, not modelled",
     ]
     found = part_a(rep, tier, random.Random(seed * 7919 + 7))
     found = part_a(rep, tier, random.Random(seed * 7937 + 17), modes=True) or found
@@ -1665,6 +1669,8 @@ def run(rep: vlib.Reporter, tier: str, seed: int) -> None:
     found = part_b(rep, tier, random.Random(seed * 7949 + 19), modes=True) or found
     found = part_b(rep, tier, random.Random(seed * 7951 + 23), dom=True) or found
     found = part_c(rep, tier, random.Random(seed * 7933 + 13)) or found
+    from harness.c07_links import part_links
+    found = part_links(rep, tier, random.Random(seed * 7963 + 29)) or found
     rep.add("rule", "A: PRNG histories on one session; non-trivial = >= 3 operation kinds incl. a failing and a successful one. "
                     "B: PRNG sequences of 2-5 prepare/run_all calls over a shared pool of Feature/Options/Link/GlobalFilter/api_data "
                     "objects; non-trivial = the GlobalFilter is passed to >= 2 calls incl. the last, or a feature carries a Link, or a "
@@ -1676,7 +1682,10 @@ def run(rep: vlib.Reporter, tier: str, seed: int) -> None:
                     "non-trivial = >= 2 modes and >= 2 operation kinds in one history. B-modes: the call sequences of B with every run_all "
                     "drawing its mode; non-trivial = run_all calls in >= 2 modes within one sequence. B-dom: PRNG sequences of 3-6 "
                     "prepare/run_all calls over a universe with domains sharing ONE GlobalFilter; non-trivial = the filter is passed to "
-                    "calls over >= 2 different non-empty domain sets.")
+                    "calls over >= 2 different non-empty domain sets. L (shared polymorphic Link): generated hierarchies (BaseA, BaseB, "
+                    "optional middle level, 2-3 concrete root pairs on one or two frameworks), ONE Link declared on the bases (optionally "
+                    "next to an exact or a middle-level link) passed via links= and/or attached to the requested Feature to 2-4 calls over "
+                    "different pairs; non-trivial = the shared Link was resolved polymorphically to >= 2 different concrete pairs in one sequence.")
     if not pr.ok and not found:
         rep.finding("proof-broken", "Props/C07.v no longer checks",
                     {"failed_files": pr.failed_files, "forbidden": pr.forbidden, "log_tail": pr.log[-3000:]}, found_input=False)
@@ -1692,6 +1701,12 @@ def replay(path: str) -> int:
     if r.get("kind") == "nested":
         rec = run_nest_case(r["case"])
         print(json.dumps({"outcomes": rec["outcomes"], "problems": rec["problems"]}, indent=1, default=str))
+        return 1 if rec["problems"] else 0
+    if r.get("kind") == "links":
+        from harness.c07_links import run_links_case
+        rec = run_links_case(r["case"])
+        print(json.dumps({"calls": [{"call": c["call"], "after": c["after"], "reused": c["got"], "fresh": c["twin"]} for c in rec["calls"]],
+                          "problems": rec["problems"]}, indent=1, default=str))
         return 1 if rec["problems"] else 0
     if r.get("kind") == "args":
         rec = run_args_case(r["case"])
